@@ -216,8 +216,8 @@ def make_families(ctx: Ctx, rng):
         {"events": [{"kind": "addTarget", "t0": None}], "decision": "MyopicNaiveGreedyDecision"},
         # ANOTHER agent (present in this variant only) maneuvers, unplanned, in the very step of the family's maneuver and
         # earlier in it; and: another agent is removed while a maneuver of it is still scheduled
-        {"extra_target": 3, "events": [{"kind": "impulse", "t0": "step+1", "planned": False},
-                                       {"kind": "burn", "t0": "step+1", "t1": "3step", "planned": False}], "truth_only": True},
+        {"extra_target": 3, "events": [{"kind": "impulse", "t0": "step+2", "planned": False},
+                                       {"kind": "burn", "t0": "step+2", "t1": "3step", "planned": False}], "truth_only": True},
         {"extra_target": 2, "events": [{"kind": "removeTarget", "t0": "step", "index": -1},
                                        {"kind": "impulse", "t0": "2step+1", "planned": False}]},
         # the id of the target that joins was used before by another agent, removed one second before the join epoch
@@ -238,7 +238,10 @@ def make_families(ctx: Ctx, rng):
         for with_impulse in ((False, True) if fi % 2 == 0 or not ctx.quick else (False,)):
             fam_event_t0 = [step, 2 * step, step + 1][fi % 3]
             fam = {"model": model, "integrator": integ, "step": step, "start": start, "nsteps": n, "nt": 2, "ns": 3,
-                   "events": ([{"kind": "impulse", "t0": 2 * step, "planned": False}] if with_impulse else []), "variants": []}
+                   # two maneuvers of the family's target in ONE step (step+1 and the step's end); a variant's other agent
+                   # maneuvers in between (step+2)
+                   "events": ([{"kind": "impulse", "t0": step + 1, "planned": False, "dv_scale": 2.0},
+                               {"kind": "impulse", "t0": 2 * step, "planned": False}] if with_impulse else []), "variants": []}
             for var in base_variants:
                 var = copy.deepcopy(var)
                 if "split" in var and var["split"] is None:
@@ -248,7 +251,7 @@ def make_families(ctx: Ctx, rng):
                 for e in var.get("events", []):
                     for key in ("t0", "t1"):
                         if isinstance(e.get(key), str) and e[key] != "before":
-                            e[key] = {"step": step, "step+1": step + 1, "2step+1": 2 * step + 1, "3step": 3 * step}[e[key]]
+                            e[key] = {"step": step, "step+1": step + 1, "step+2": step + 2, "2step+1": 2 * step + 1, "3step": 3 * step}[e[key]]
                     if e.get("t0") == "before":
                         e["t0"] = fam_event_t0 - 1
                     if e.get("t0") is None:
